@@ -60,6 +60,12 @@ fn case(code: i64, p: &[i128], msg: &[i128]) -> (Vec<Vec<i128>>, Vec<Vec<i128>>)
         let mut sc: ScratchOwned<BE> = garbage_scratch::<BE>(1 << 22);
         let clen = h.rout * h.size * n;
         let cell_words = (h.rout + 1) * h.size * n;
+        // a GENERIC receiver for deserialisation: every header field differs from the sender's (radix, precision, ranks, dnum, dsize),
+        // the buffer is larger; after read_from it must be the sender's object (same bytes when written again, same decompression)
+        let (gdn, gds) = (Dnum(h.dnum as u32 + 1), Dsize(h.dsize as u32 + 1));
+        let gsize = ((h.dnum + 1) * (h.dsize + 1) + 1).max(h.size + 2);
+        let (gb2, gk) = (Base2K(h.b as u32 + 5), TorusPrecision((gsize * (h.b + 5)) as u32));
+        let grk = |r: usize| Rank(r as u32 + 1);
         if code == 19001 {
             let psize = h.x10 as usize;
             let (sk, s) = glwe_secret(n, h.rout, h.skind, h.sparam, &sxo);
@@ -82,13 +88,17 @@ fn case(code: i64, p: &[i128], msg: &[i128]) -> (Vec<Vec<i128>>, Vec<Vec<i128>>)
             cc2.read_from(&mut &bytes[..]).unwrap();
             let mut ct2 = GLWE::alloc_from_infos(&li);
             module.decompress_glwe(&mut ct2, &cc2);
+            let mut cc3 = GLWECompressed::alloc_from_infos(&GLWELayout { n: dn, base2k: gb2, k: gk, rank: grk(h.rout) });
+            cc3.read_from(&mut &bytes[..]).unwrap();
+            let mut ct3 = GLWE::alloc_from_infos(&li);
+            module.decompress_glwe(&mut ct3, &cc3);
             // both decrypt to the same plaintext
             let mut d1 = GLWEPlaintext::alloc(dn, b2, kk); let mut d2 = GLWEPlaintext::alloc(dn, b2, kk);
             module.glwe_decrypt(&ct, &mut d1, &skp, sc.borrow());
             module.glwe_decrypt(&std_ct, &mut d2, &skp, sc.borrow());
             let body = tail_words(&bytes, n * h.size);
             let flags = vec![(ser(&ct) == ser(&std_ct)) as i128, (stored == sxa) as i128, (body == col_words(ct.data(), 0)) as i128,
-                             (ser(&ct2) == ser(&ct)) as i128, (ser(&cc2) == bytes) as i128, (d1.data.data == d2.data.data) as i128];
+                             (ser(&ct2) == ser(&ct) && ser(&ct3) == ser(&ct)) as i128, (ser(&cc2) == bytes && ser(&cc3) == bytes) as i128, (d1.data.data == d2.data.data) as i128];
             let e = replay_error(&module, n, h.b, h.size, noise, &mut Source::new(sxe));
             return (vec![to128(&s), raw_u64(&stored, clen), to128(&e), vec![1; 6]], vec![body, all_cols(ct.data()), flags]);
         }
@@ -110,7 +120,11 @@ fn case(code: i64, p: &[i128], msg: &[i128]) -> (Vec<Vec<i128>>, Vec<Vec<i128>>)
             for j in 0..h.size { bytes.extend((w[j * (nl + 1)] as i64).to_le_bytes()); }
             let mut cc = LWECompressed::alloc(b2, kk);
             cc.read_from(&mut &bytes[..]).unwrap();
-            let round = ser(&cc) == bytes;
+            let mut ccg = LWECompressed::alloc(gb2, gk);
+            ccg.read_from(&mut &bytes[..]).unwrap();
+            let mut og = LWE::alloc(Degree(nl as u32), b2, kk);
+            let round = ser(&cc) == bytes && ser(&ccg) == bytes
+                && std::panic::catch_unwind(std::panic::AssertUnwindSafe(|| { module.decompress_lwe(&mut og, &ccg); col_words(og.data(), 0) == w })).unwrap_or(false);
             let dec = std::panic::catch_unwind(std::panic::AssertUnwindSafe(|| {
                 let mut o = LWE::alloc(Degree(nl as u32), b2, kk);
                 module.decompress_lwe(&mut o, &cc);
@@ -161,6 +175,10 @@ fn case(code: i64, p: &[i128], msg: &[i128]) -> (Vec<Vec<i128>>, Vec<Vec<i128>>)
             gc2.read_from(&mut &bytes[..]).unwrap();
             let mut g2 = GGSW::alloc(dn, b2, kk, Rank(rank as u32), Dnum(h.dnum as u32), Dsize(h.dsize as u32));
             module.decompress_ggsw(&mut g2, &gc2);
+            let mut gc3 = GGSWCompressed::alloc(dn, gb2, gk, grk(rank), gdn, gds);
+            gc3.read_from(&mut &bytes[..]).unwrap();
+            let mut g3 = GGSW::alloc(dn, b2, kk, Rank(rank as u32), Dnum(h.dnum as u32), Dsize(h.dsize as u32));
+            module.decompress_ggsw(&mut g3, &gc3);
             let parent = raw_u64(&root, 4 * cells);
             let (mut seeds_w, mut children, mut cellw, mut flags, mut exp) = (vec![], vec![], vec![], vec![], vec![]);
             let mut xe = Source::new(sxe);
@@ -191,7 +209,7 @@ fn case(code: i64, p: &[i128], msg: &[i128]) -> (Vec<Vec<i128>>, Vec<Vec<i128>>)
                     flags.push(2); exp.push(2);
                 }
             } }
-            flags.extend([(seeds_w == parent) as i128, bodies_ok as i128, (ser(&g2) == ser(&g)) as i128, (ser(&gc2) == bytes) as i128]);
+            flags.extend([(seeds_w == parent) as i128, bodies_ok as i128, (ser(&g2) == ser(&g) && ser(&g3) == ser(&g)) as i128, (ser(&gc2) == bytes && ser(&gc3) == bytes) as i128]);
             exp.extend([1; 4]);
             let mw: Vec<i128> = m.at(0, 0).iter().map(|x| *x as i128).collect();
             return (vec![mw, to128(&s), parent, children, errs, exp], vec![seeds_w, cellw, flags]);
@@ -204,7 +222,7 @@ fn case(code: i64, p: &[i128], msg: &[i128]) -> (Vec<Vec<i128>>, Vec<Vec<i128>>)
         let alloc_g = || GGLWE::alloc(dn, b2, kk, Rank(rin as u32), Rank(rout as u32), Dnum(h.dnum as u32), Dsize(h.dsize as u32));
         // per kind: (plaintext polynomials, clear s_out, serialised compressed object, offset of the GGLWECompressed inside it,
         //            decompressed cells, decompressed-after-serde cells, serde bytes equal)
-        let (ms, s_out, bytes, skip, cells_a, cells_b, ser_same): (Vec<Vec<i64>>, Vec<i64>, Vec<u8>, usize, Vec<i128>, Vec<i128>, bool);
+        let (ms, s_out, bytes, skip, cells_a, cells_b, cells_c, ser_same): (Vec<Vec<i64>>, Vec<i64>, Vec<u8>, usize, Vec<i128>, Vec<i128>, Vec<i128>, bool);
         let mut wrapper_flag: i128 = 2;
         let dump = |g: &GGLWE<&[u8]>| -> Vec<i128> {
             let mut w = Vec::new();
@@ -224,7 +242,11 @@ fn case(code: i64, p: &[i128], msg: &[i128]) -> (Vec<Vec<i128>>, Vec<Vec<i128>>)
                 let mut cc2 = GGLWECompressed::alloc(dn, b2, kk, Rank(rin as u32), Rank(rout as u32), Dnum(h.dnum as u32), Dsize(h.dsize as u32));
                 cc2.read_from(&mut &bytes[..]).unwrap();
                 let mut g2 = alloc_g(); module.decompress_gglwe(&mut g2, &cc2);
-                ser_same = ser(&cc2) == bytes;
+                let mut cc3 = GGLWECompressed::alloc(dn, gb2, gk, grk(rin), grk(rout), gdn, gds);
+                cc3.read_from(&mut &bytes[..]).unwrap();
+                let mut g3 = alloc_g(); module.decompress_gglwe(&mut g3, &cc3);
+                cells_c = dump(&g3.to_ref());
+                ser_same = ser(&cc2) == bytes && ser(&cc3) == bytes;
                 ms = msg.chunks(n).map(|c| v64(c)).collect(); s_out = s_out_lib.clone();
                 cells_a = dump(&g.to_ref()); cells_b = dump(&g2.to_ref());
             }
@@ -238,7 +260,12 @@ fn case(code: i64, p: &[i128], msg: &[i128]) -> (Vec<Vec<i128>>, Vec<Vec<i128>>)
                 kc2.read_from(&mut &bytes[..]).unwrap();
                 let mut g2 = GLWESwitchingKey::alloc(dn, b2, kk, Rank(rin as u32), Rank(rout as u32), Dnum(h.dnum as u32), Dsize(h.dsize as u32));
                 module.decompress_glwe_switching_key(&mut g2, &kc2);
-                ser_same = ser(&kc2) == bytes;
+                let mut kc3 = GLWESwitchingKeyCompressed::alloc(dn, gb2, gk, grk(rin), grk(rout), gdn, gds);
+                kc3.read_from(&mut &bytes[..]).unwrap();
+                let mut g3 = GLWESwitchingKey::alloc(dn, b2, kk, Rank(rin as u32), Rank(rout as u32), Dnum(h.dnum as u32), Dsize(h.dsize as u32));
+                module.decompress_glwe_switching_key(&mut g3, &kc3);
+                cells_c = dump(&g3.to_ref());
+                ser_same = ser(&kc2) == bytes && ser(&kc3) == bytes;
                 ms = polys(&s_in); s_out = s_out_lib.clone();
                 cells_a = dump(&g.to_ref()); cells_b = dump(&g2.to_ref());
                 // the LWE-related compressed layouts are wrappers of this one (no encryption routine exists for them): where the
@@ -246,25 +273,28 @@ fn case(code: i64, p: &[i128], msg: &[i128]) -> (Vec<Vec<i128>>, Vec<Vec<i128>>)
                 if h.dsize == 1 {
                     let mut ok = true; let mut any = false;
                     if rin == 1 && rout == 1 {
-                        let mut w = LWESwitchingKeyCompressed::alloc(dn, b2, kk, Dnum(h.dnum as u32));
+                        for mut w in [LWESwitchingKeyCompressed::alloc(dn, b2, kk, Dnum(h.dnum as u32)), LWESwitchingKeyCompressed::alloc(dn, gb2, gk, gdn)] {
                         w.read_from(&mut &bytes[..]).unwrap();
                         let mut o = LWESwitchingKey::alloc(dn, b2, kk, Dnum(h.dnum as u32));
                         module.decompress_gglwe(&mut o, &w);
                         ok &= dump(&o.to_ref()) == cells_a && ser(&w) == bytes; any = true;
+                        }
                     }
                     if rout == 1 {
-                        let mut w = GLWEToLWESwitchingKeyCompressed::alloc(dn, b2, kk, Rank(rin as u32), Dnum(h.dnum as u32));
+                        for mut w in [GLWEToLWESwitchingKeyCompressed::alloc(dn, b2, kk, Rank(rin as u32), Dnum(h.dnum as u32)), GLWEToLWESwitchingKeyCompressed::alloc(dn, gb2, gk, grk(rin), gdn)] {
                         w.read_from(&mut &bytes[..]).unwrap();
                         let mut o = GLWEToLWEKey::alloc(dn, b2, kk, Rank(rin as u32), Dnum(h.dnum as u32));
                         module.decompress_gglwe(&mut o, &w);
                         ok &= dump(&o.to_ref()) == cells_a && ser(&w) == bytes; any = true;
+                        }
                     }
                     if rin == 1 {
-                        let mut w = LWEToGLWEKeyCompressed::alloc(dn, b2, kk, Rank(rout as u32), Dnum(h.dnum as u32));
+                        for mut w in [LWEToGLWEKeyCompressed::alloc(dn, b2, kk, Rank(rout as u32), Dnum(h.dnum as u32)), LWEToGLWEKeyCompressed::alloc(dn, gb2, gk, grk(rout), gdn)] {
                         w.read_from(&mut &bytes[..]).unwrap();
                         let mut o = LWEToGLWEKey::alloc(dn, b2, kk, Rank(rout as u32), Dnum(h.dnum as u32));
                         module.decompress_gglwe(&mut o, &w);
                         ok &= dump(&o.to_ref()) == cells_a && ser(&w) == bytes; any = true;
+                        }
                     }
                     if any { wrapper_flag = ok as i128; }
                 }
@@ -280,7 +310,12 @@ fn case(code: i64, p: &[i128], msg: &[i128]) -> (Vec<Vec<i128>>, Vec<Vec<i128>>)
                 kc2.read_from(&mut &bytes[..]).unwrap();
                 let mut g2 = GLWEAutomorphismKey::alloc(dn, b2, kk, Rank(rout as u32), Dnum(h.dnum as u32), Dsize(h.dsize as u32));
                 module.decompress_automorphism_key(&mut g2, &kc2);
-                ser_same = ser(&kc2) == bytes;
+                let mut kc3 = GLWEAutomorphismKeyCompressed::alloc(dn, gb2, gk, grk(rout), gdn, gds);
+                kc3.read_from(&mut &bytes[..]).unwrap();
+                let mut g3 = GLWEAutomorphismKey::alloc(dn, b2, kk, Rank(rout as u32), Dnum(h.dnum as u32), Dsize(h.dsize as u32));
+                module.decompress_automorphism_key(&mut g3, &kc3);
+                cells_c = dump(&g3.to_ref());
+                ser_same = ser(&kc2) == bytes && ser(&kc3) == bytes;
                 // plaintext = sk, encrypted under sigma_{gal^-1}(sk)
                 let mut a: VecZnx<Vec<u8>> = VecZnx::alloc(n, rout, 1);
                 for c in 0..rout { a.at_mut(c, 0).copy_from_slice(&s_out_lib[c * n..(c + 1) * n]); }
@@ -300,7 +335,12 @@ fn case(code: i64, p: &[i128], msg: &[i128]) -> (Vec<Vec<i128>>, Vec<Vec<i128>>)
                 kc2.read_from(&mut &bytes[..]).unwrap();
                 let mut g2 = GLWETensorKey::alloc(dn, b2, kk, Rank(rout as u32), Dnum(h.dnum as u32), Dsize(h.dsize as u32));
                 module.decompress_tensor_key(&mut g2, &kc2);
-                ser_same = ser(&kc2) == bytes;
+                let mut kc3 = GLWETensorKeyCompressed::alloc(dn, gb2, gk, grk(rout), gdn, gds);
+                kc3.read_from(&mut &bytes[..]).unwrap();
+                let mut g3 = GLWETensorKey::alloc(dn, b2, kk, Rank(rout as u32), Dnum(h.dnum as u32), Dsize(h.dsize as u32));
+                module.decompress_tensor_key(&mut g3, &kc3);
+                cells_c = dump(&g3.to_ref());
+                ser_same = ser(&kc2) == bytes && ser(&kc3) == bytes;
                 let sp = polys(&s_out_lib);
                 let mut prods = Vec::new();
                 for i in 0..rout { for j in i..rout { prods.push(negamul(&sp[i], &sp[j])); } }
@@ -317,7 +357,12 @@ fn case(code: i64, p: &[i128], msg: &[i128]) -> (Vec<Vec<i128>>, Vec<Vec<i128>>)
                 kc2.read_from(&mut &all[..]).unwrap();
                 let mut g2 = GGLWEToGGSWKey::alloc(dn, b2, kk, Rank(rout as u32), Dnum(h.dnum as u32), Dsize(h.dsize as u32));
                 module.decompress_gglwe_to_ggsw_key(&mut g2, &kc2);
-                ser_same = ser(&kc2) == all;
+                let mut kc3 = GGLWEToGGSWKeyCompressed::alloc(dn, gb2, gk, Rank(rout as u32), gdn, gds);
+                kc3.read_from(&mut &all[..]).unwrap();
+                let mut g3 = GGLWEToGGSWKey::alloc(dn, b2, kk, Rank(rout as u32), Dnum(h.dnum as u32), Dsize(h.dsize as u32));
+                module.decompress_gglwe_to_ggsw_key(&mut g3, &kc3);
+                cells_c = dump(&g3.at(h.idx).to_ref());
+                ser_same = ser(&kc2) == all && ser(&kc3) == all;
                 // entry idx: its own GGLWECompressed, located by walking the serialised list
                 let mut off = 8;
                 for _ in 0..h.idx { off = parse_gglwe_compressed(&all, off).2; }
@@ -367,7 +412,7 @@ fn case(code: i64, p: &[i128], msg: &[i128]) -> (Vec<Vec<i128>>, Vec<Vec<i128>>)
         let mut bodies_ok = bodies.len() == cells * h.size * n;
         for slot in 0..cells { if bodies_ok { bodies_ok &= bodies[slot * h.size * n..(slot + 1) * h.size * n] == cells_a[slot * cell_words..slot * cell_words + h.size * n]; } }
         let mut flags = std_flag.clone();
-        flags.extend([(seeds_w == drawn) as i128, bodies_ok as i128, (cells_a == cells_b) as i128, ser_same as i128, wrapper_flag]);
+        flags.extend([(seeds_w == drawn) as i128, bodies_ok as i128, (cells_a == cells_b && cells_a == cells_c) as i128, ser_same as i128, wrapper_flag]);
         // predicted flags (from the shape alone): every comparison succeeds, 2 where the public API cannot express it
         let mut exp: Vec<i128> = vec![if std_ok { 1 } else { 2 }; cells];
         exp.extend([1, 1, 1, 1, if wrapper_flag == 2 { 2 } else { 1 }]);
